@@ -117,39 +117,47 @@ Section Race.
     l_key (c_link c) = k /\ idx_ok (s_tm (c_st c)) /\ live c0 (c_st c) = true /\ prog_ok (c_term c) /\
     pc_inv (l_pc (c_link c)) (c_st c) (c_term c).
 
+  Lemma inv_intro s l rem dy :
+    l_key l = k -> idx_ok (s_tm s) -> live c0 s = true -> prog_ok rem -> pc_inv (l_pc l) s rem ->
+    inv (mkcfg s l rem dy).
+  Proof. intros A B C D E. unfold inv. cbn [c_link c_st c_term]. split; [|split; [|split; [|split]]]; assumption. Qed.
+
   Lemma inv_step b c : inv c -> inv (step b c).
   Proof.
     intros (K & OK & L & PO & I). destruct c as [s [k' pc] rem dy]. cbn [c_link c_st c_term l_key l_pc] in *. subst k'.
     destruct b; cbn [step c_link c_st c_term c_dying].
     - (* requester's step *)
-      pose proof (lstep_idx_ok dy (mklt k pc) s OK) as OK'.
       destruct pc as [| | | |res]; cbn [lstep l_key l_pc] in *.
       + (* load *) fold t.
-        destruct (exists_target t s); [destruct (km k && _)|]; cbn; repeat split; auto.
+        destruct (exists_target t s); [destruct (km k && _)|];
+          (apply inv_intro; [reflexivity | exact OK | exact L | exact PO | cbn [l_pc pc_inv]; exact I]).
       + (* add *)
         destruct (tm_add k (s_tm s)) as [m' ok] eqn:E.
         pose proof (tm_add_spec _ _ _ _ E OK) as (O1 & R1 & B1).
         destruct I as [H N]. unfold has in H. rewrite H in B1. cbn in B1. subst ok.
-        cbn. repeat split; auto. left. split; [|exact N].
-        unfold has. cbn. apply memb_In. apply R1. right. reflexivity.
-      + (* recheck *) fold t. destruct (exists_target t s) eqn:Ex; cbn; repeat split; auto.
-        destruct I as [[H N]|[H N]]; [right; repeat split; auto | left; auto].
+        apply inv_intro; [reflexivity | exact O1 | exact L | exact PO |].
+        cbn [l_pc pc_inv]. left. split; [|exact N].
+        unfold has. cbn [s_tm set_tm]. apply memb_In. apply R1. right. reflexivity.
+      + (* recheck *) fold t. destruct (exists_target t s) eqn:Ex;
+          (apply inv_intro; [reflexivity | exact OK | exact L | exact PO | cbn [l_pc pc_inv]]); [|exact I].
+        destruct I as [[H N]|[H N]]; [right; split; [exact H | split; [exact N | left; exact Ex]] | left; split; assumption].
       + (* remove *)
         destruct (tm_remove k (s_tm s)) as [m' ok] eqn:E.
         pose proof (tm_remove_spec _ _ _ _ E OK) as (O1 & R1 & B1).
-        destruct I as [[H N]|[H N]]; unfold has in H; rewrite H in B1; subst ok; cbn; repeat split; auto.
-        * unfold has. cbn. apply memb_false. intros HI. apply R1 in HI. tauto.
-        * left. split; [exact H | exact N].
-      + (* done *) cbn. repeat split; auto.
+        destruct I as [[H N]|[H N]]; unfold has in H; rewrite H in B1; subst ok.
+        * apply inv_intro; [reflexivity | exact O1 | exact L | exact PO |]. cbn [l_pc pc_inv]. split; [|exact N].
+          unfold has. cbn [s_tm set_tm]. apply memb_false. intros HI. apply R1 in HI. tauto.
+        * apply inv_intro; [reflexivity | exact OK | exact L | exact PO |]. cbn [l_pc pc_inv]. left. split; assumption.
+      + (* done *) apply inv_intro; [reflexivity | exact OK | exact L | exact PO | exact I].
     - (* terminating process's step *)
-      destruct rem as [|y tl]; [repeat split; auto|]. cbn [c_link c_st c_term].
-      destruct PO as (Cv & Dr & Pd & Qc).
-      assert (PO' : prog_ok tl) by (apply (prog_ok_tl y); repeat split; auto).
+      destruct rem as [|y tl]; [apply inv_intro; [reflexivity | exact OK | exact L | exact PO | exact I]|].
+      pose proof PO as (Cv & Dr & Pd & Qc).
+      assert (PO' : prog_ok tl) by (apply (prog_ok_tl y); exact PO).
       pose proof (tstep_effect y s OK L
                     (fun q E => Pd q (or_introl E)) (fun q E => Qc q (or_introl E))
                     (fun t' r' E => Dr t' r' (or_introl E))) as (L' & EF & EX).
       cbn zeta in *.
-      repeat split; [apply tstep_idx_ok, OK | exact L' | apply PO' | apply PO' | apply PO' | apply PO' |].
+      apply inv_intro; [reflexivity | apply tstep_idx_ok, OK | exact L' | exact PO' |]. cbn [l_pc].
       cbn [covered] in Cv. apply andb_true_iff in Cv. destruct Cv as [Cv1 Cv2].
       destruct (is_drain y) eqn:ID.
       + destruct EF as [H' N'].
@@ -160,8 +168,8 @@ Section Race.
         * destruct I as [[H N]|[H N]]; rewrite H in N'; right; split; auto; lia.
         * destruct I as [[H N]|(H & N & _)]; rewrite H in N'; left; split; auto; lia.
         * destruct I as [H N]. rewrite H in N'. split; [exact H'|lia].
-      + destruct EF as [H' N']. rewrite <- H', <- N' in I.
-        destruct pc as [| | | |[|e|?|?]]; cbn [pc_inv] in *; try contradiction; try exact I.
+      + destruct EF as [H' N'].
+        destruct pc as [| | | |[|e|?|?]]; cbn [pc_inv] in *; try contradiction; rewrite ?H', ?N'; try exact I.
         destruct I as [I|(H & N & Ex)]; [left; exact I|]. right. split; [exact H|]. split; [exact N|].
         destruct (deletes y) eqn:Dl.
         * right. exact Cv1.
@@ -188,7 +196,7 @@ Section Race.
   Proof.
     intros s prog dy sched OK L PO H N c F.
     assert (I : inv c).
-    { apply inv_run. repeat split; auto; apply PO. }
+    { apply inv_run. apply inv_intro; [reflexivity | exact OK | exact L | exact PO | cbn [l_pc pc_inv]; split; assumption]. }
     destruct I as (_ & _ & _ & _ & I). unfold finished in F. unfold l_result.
     destruct (l_pc (c_link c)) as [| | | |res]; try discriminate.
     destruct (c_term c); [|discriminate]. cbn [pc_inv] in I.
@@ -206,26 +214,31 @@ Proof.
   destruct (deletes k y); [|reflexivity]. rewrite existsb_app, A. reflexivity.
 Qed.
 
+Lemma covered_pair k y t' r' : (deletes k y = true -> t' = kt k) -> covered k [y; TDrain t' r'] = true.
+Proof.
+  intros H. cbn [covered existsb]. replace (deletes k (TDrain t' r')) with false by reflexivity.
+  destruct (deletes k y) eqn:D; [|reflexivity]. rewrite (H eq_refl). unfold is_drain.
+  destruct (target_dec (kt k) (kt k)); [reflexivity | congruence].
+Qed.
+
 Lemma term_prog_ok k r p pr :
   target_node (kt k) = me -> kc k <> p -> prog_ok k r (term_prog_of p pr r).
 Proof.
   intros TN NE. unfold prog_ok, term_prog_of. split; [|split; [|split]].
-  - change (TDelProc p :: TDrain (TPid p) r :: TCleanCons p :: ?l) with ([TDelProc p; TDrain (TPid p) r; TCleanCons p] ++ l).
+  - change (TDelProc p :: TDrain (TPid p) r :: TCleanCons p :: ?l) with ([TDelProc p; TDrain (TPid p) r] ++ [TCleanCons p] ++ l).
     repeat apply covered_app.
-    + cbn. unfold deletes. destruct (kt k) as [q| | | |] eqn:E; cbn; try reflexivity.
-      destruct (pid_dec p q) as [->|]; [|reflexivity]. unfold is_drain. rewrite E.
-      destruct (target_dec (TPid q) (TPid q)); [reflexivity | congruence].
-    + destruct (pr_name pr) as [n|]; [|reflexivity]. cbn. unfold deletes. destruct (kt k) as [|n' nd| | |] eqn:E; cbn; try reflexivity.
-      destruct (N.eqb_spec n n') as [->|]; [|reflexivity]. cbn in TN. subst nd. unfold is_drain. rewrite E.
-      destruct (target_dec (TName n' me) (TName n' me)); [reflexivity | congruence].
+    + apply covered_pair. unfold deletes. destruct (kt k) as [q| | | |]; try discriminate.
+      destruct (pid_dec p q) as [->|]; [reflexivity | discriminate].
+    + reflexivity.
+    + destruct (pr_name pr) as [n|]; [|reflexivity]. apply covered_pair. unfold deletes.
+      destruct (kt k) as [|n' nd| | |]; try discriminate. cbn in TN. subst nd.
+      intros E. apply N.eqb_eq in E. subst. reflexivity.
     + induction (pr_aliases pr) as [|a l IH]; [reflexivity|]. cbn [flat_map]. apply covered_app; [|exact IH].
-      cbn. unfold deletes. destruct (kt k) as [| |nd a'| |] eqn:E; cbn; try reflexivity.
-      destruct (N.eqb_spec a a') as [->|]; [|reflexivity]. cbn in TN. subst nd. unfold is_drain. rewrite E.
-      destruct (target_dec (TAlias me a') (TAlias me a')); [reflexivity | congruence].
+      apply covered_pair. unfold deletes. destruct (kt k) as [| |nd a'| |]; try discriminate. cbn in TN. subst nd.
+      intros E. apply N.eqb_eq in E. subst. reflexivity.
     + induction (pr_events pr) as [|e l IH]; [reflexivity|]. cbn [flat_map]. apply covered_app; [|exact IH].
-      cbn. unfold deletes. destruct (kt k) as [| | |e' nd|] eqn:E; cbn; try reflexivity.
-      destruct (N.eqb_spec e e') as [->|]; [|reflexivity]. cbn in TN. subst nd. unfold is_drain. rewrite E.
-      destruct (target_dec (TEvent e' me) (TEvent e' me)); [reflexivity | congruence].
+      apply covered_pair. unfold deletes. destruct (kt k) as [| | |e' nd|]; try discriminate. cbn in TN. subst nd.
+      intros E. apply N.eqb_eq in E. subst. reflexivity.
   - intros t' r' HI _. cbn [In] in HI. repeat (destruct HI as [HI|HI]; [inversion HI; reflexivity|]); try discriminate.
     apply in_app_or in HI. destruct HI as [HI|HI].
     { destruct (pr_name pr); [|destruct HI]. cbn in HI. destruct HI as [HI|[HI|[]]]; inversion HI; reflexivity. }
